@@ -325,22 +325,17 @@ class ULPIRxEventDecoder(Elaboratable):
         receiving = Signal()
         m.d.comb += receiving.eq(direction_delayed & self.ulpi.dir.i)
 
-        # Default our strobes to 0, unless asserted.
-        m.d.usb += [
-            self.rx_start  .eq(0),
-            self.rx_stop   .eq(0)
-        ]
-
         # Sample the DATA lines whenever these conditions are met.
         with m.If(receiving & ~self.ulpi.nxt.i & ~self.register_operation_in_progress):
             m.d.usb += self.last_rx_command.eq(self.ulpi.data.i)
 
-            # If RxActive has just changed, strobe the start or stop signals,
+            # If RxActive has just changed, strobe the start or stop signals.
+            # (We do so in the cycle of the RxCmd itself: the first data byte may follow it immediately.)
             rx_active = self.ulpi.data.i[4]
             with m.If(~self.rx_active & rx_active):
-                m.d.usb += self.rx_start.eq(1)
+                m.d.comb += self.rx_start.eq(1)
             with m.If(self.rx_active & ~rx_active):
-                m.d.usb += self.rx_stop.eq(1)
+                m.d.comb += self.rx_stop.eq(1)
 
 
         # Break the most recent RxCmd into its UTMI-equivalent signals.
